@@ -2727,44 +2727,24 @@ template< size_t L> inline
 {
    if (pos1 >= mLength)
       return *this;
-   size_t  copy_len = count2;
-   if (pos1 + count1 >= mLength)
-   {
-      // replace from pos until the end of the string
-      if (pos1 + copy_len > L)
-         copy_len = L - pos1;
-      std::memcpy( &mString[ pos1], &str[ pos2], copy_len);
-      mLength = pos1 + copy_len;
-      mString[ mLength] = '\0';
-   } else if (count1 == copy_len)
-   {
-      std::memcpy( &mString[ pos1], &str[ pos2], copy_len);
-   } else if (count1 < copy_len)
-   {
-      // goodbyexfarewell
-      // replace x by ' and ':  replace( 7, 1, " and ");
-      // str.length() == 5
-      // make space:  goodbyex....farewell
-      // copy:        goodbye and farewell
-      std::memmove( &mString[ pos1 + copy_len - count1 + 1],
-         &mString[ pos1 + count1],
-         mLength - pos1 - count1);
-      std::memcpy( &mString[ pos1], &str[ pos2], copy_len);
-      mLength = mLength - count1 + copy_len;
-      mString[ mLength] = '\0';
-   } else // count1 > copy_len
-   {
-      // goodbyexxxxxxxxfarewell
-      // replace xxxxxxxx by ' and ':  replace( 7, 8, " and ");
-      // str.length() == 5
-      // adjust end of string:  goodbyexxxxxfarewell
-      // copy:                  goodbye and farewell
+   // cannot replace more than the rest of the string
+   if (count1 > mLength - pos1)
+      count1 = mLength - pos1;
+   // cannot insert more than fits into the buffer
+   const size_t  copy_len = std::min( count2, L - pos1);
+   // the part of the rest of the string that still fits after the new text
+   const size_t  tail_len = std::min( mLength - pos1 - count1,
+      L - pos1 - copy_len);
+   // goodbyexfarewell
+   // replace x by ' and ':  replace( 7, 1, " and ");
+   // make space:  goodbyex....farewell
+   // copy:        goodbye and farewell
+   if (count1 != copy_len)
       std::memmove( &mString[ pos1 + copy_len], &mString[ pos1 + count1],
-         mLength - pos1 - count1);
-      std::memcpy( &mString[ pos1], &str[ pos2], copy_len);
-      mLength -= (count1 - copy_len);
-      mString[ mLength] = '\0';
-   } // end if
+         tail_len);
+   std::memcpy( &mString[ pos1], &str[ pos2], copy_len);
+   mLength = pos1 + copy_len + tail_len;
+   mString[ mLength] = '\0';
    return *this;
 } // FixedString< L>::replaceImpl
 
